@@ -304,6 +304,71 @@ theorem program_eventually_deterministic (t : Term) (k : Kind) (hk : t.kind = so
         · cases (spec s (wholeInput ins)).head? with
           | none => exact List.Perm.refl _
           | some v => exact it.map _
+  | reduceB f t ih =>
+    simp only [Term.kind] at hk
+    cases hkt : t.kind with
+    | none => simp [hkt] at hk
+    | some kt =>
+      have iht := ih kt hkt hwf
+      simp only [hkt] at hk
+      cases kt <;> simp at hk
+      subst hk
+      simp only [Agrees, run, spec] at iht ⊢
+      obtain ⟨os, hos, hfl⟩ := iht
+      rw [hos]
+      exact ⟨reduceNoReplayRun f false (List.foldl (reduceStep f) none (spec t (wholeInput ins))) os,
+        by simp [reduceNoReplayRun], aux_reduceNoReplay_rest f _ os hfl⟩
+  | joinHalfS t b iht ihb =>
+    simp only [Term.kind] at hk
+    cases hkt : t.kind with
+    | none => simp [hkt] at hk
+    | some kt =>
+      cases hkb : b.kind with
+      | none => cases kt <;> simp [hkt, hkb] at hk
+      | some kb =>
+        have it := iht kt hkt hwf.1
+        have ib := ihb kb hkb hwf.2
+        simp only [hkt, hkb] at hk
+        have hlen : (run t ins).length = (run b ins).length := by simp [aux_run_length]
+        cases kt <;> cases kb <;> simp at hk <;> subst hk <;> simp only [Agrees] at it ib ⊢ <;>
+          obtain ⟨os, hos, hfl⟩ := ib <;> simp only [run, spec] <;> rw [hos] at hlen ⊢ <;>
+          rw [aux_staticSide_flatten gJoinHalf (by simp [gJoinHalf, joinL]) aux_gJoinHalf_app _ _ _ hlen hfl]
+        · rw [it]
+        · exact aux_gJoinHalf_perm _ _ _ it
+  | antiJoinS t b iht ihb =>
+    simp only [Term.kind] at hk
+    cases hkt : t.kind with
+    | none => simp [hkt] at hk
+    | some kt =>
+      cases hkb : b.kind with
+      | none => cases kt <;> simp [hkt, hkb] at hk
+      | some kb =>
+        have it := iht kt hkt hwf.1
+        have ib := ihb kb hkb hwf.2
+        simp only [hkt, hkb] at hk
+        have hlen : (run t ins).length = (run b ins).length := by simp [aux_run_length]
+        cases kt <;> cases kb <;> simp at hk <;> subst hk <;> simp only [Agrees] at it ib ⊢ <;>
+          obtain ⟨os, hos, hfl⟩ := ib <;> simp only [run, spec] <;> rw [hos] at hlen ⊢ <;>
+          rw [aux_staticSide_flatten gAntiJoin (by simp [gAntiJoin]) (by simp [gAntiJoin]) _ _ _ hlen hfl]
+        · rw [it]
+        · exact it.filter _
+  | differenceS t b iht ihb =>
+    simp only [Term.kind] at hk
+    cases hkt : t.kind with
+    | none => simp [hkt] at hk
+    | some kt =>
+      cases hkb : b.kind with
+      | none => cases kt <;> simp [hkt, hkb] at hk
+      | some kb =>
+        have it := iht kt hkt hwf.1
+        have ib := ihb kb hkb hwf.2
+        simp only [hkt, hkb] at hk
+        have hlen : (run t ins).length = (run b ins).length := by simp [aux_run_length]
+        cases kt <;> cases kb <;> simp at hk <;> subst hk <;> simp only [Agrees] at it ib ⊢ <;>
+          obtain ⟨os, hos, hfl⟩ := ib <;> simp only [run, spec] <;> rw [hos] at hlen ⊢ <;>
+          rw [aux_staticSide_flatten gDifference (by simp [gDifference]) (by simp [gDifference]) _ _ _ hlen hfl]
+        · rw [it]
+        · exact it.filter _
   | smap f t ih =>
     simp only [Term.kind] at hk
     cases hkt : t.kind with
